@@ -82,7 +82,8 @@ func runC17(c *Ctx) {
 	// decoded payload pointer is checked before use
 	up := "client.unpackPPTPayload"
 	c.Guard(r1, up, "decoded passthru payload used", `^return:local:payloadTyped\.Arguments, local:payloadTyped\.ArgumentsKw, nil$|^return:.*payloadTyped.*Arguments`, 1, clause("payload pointer not nil", F(`^\(local:payloadTyped == nil\)$`), F(`^\(.*payloadTyped.* == nil\)$`)))
-	c.R.Floor(r1, 6)
+	rulePayloadDecodeTarget(c, r1)
+	c.R.Floor(r1, 9)
 
 	const r2 = "C17.R2 session lock released on every path, never held across a blocking operation"
 	nLock := 0
@@ -181,7 +182,8 @@ func runC17(c *Ctx) {
 	}
 	c.Has(r4, hi+"$1$2", "handler counts out when its goroutine ends", `^call:\(\*sync\.WaitGroup\)\.Done\(\^c\.&activeInvHandlers\)$`, 1)
 	c.Has(r4, hi+"$1", "count-out is deferred", `^defer:client\.\(\*Client\)\.runHandleInvocation\$1\$2\(\)$`, 1)
-	c.R.Floor(r4, 10)
+	ruleKeepAliveCloses(c, r4) // a silent router ends the transport, hence the receive loop, hence Done()
+	c.R.Floor(r4, 12)
 
 	const r5 = "C17.R5 dispatcher tolerates every message"
 	rr := cl + "runReceiveFromRouter"
